@@ -585,7 +585,6 @@ package leader
 //@   ghost out cleared Bool = false
 //@   ghost termCancelled Bool = false
 //@   ghost mayCancelTerm Bool = false
-//@   on store kvElection.leaderID assert C18.known_leader_never_forgotten: false
 //@   on store kvElection.isLeader as s when !s.value set mayCancelTerm = cleared
 //@   ghost watcherSeen Bool = false
 //@   ghost ctxSeen Bool = false
@@ -1043,11 +1042,6 @@ package leader
 //@   on call attemptAcquireWithRetry as c assert C06+C09.acquire_bound_to_election_ctx: c.ctx == ectx
 //@   ensures C06.vacancy_triggers_acquire: entry == nil || LenOf(EntryVal(entry)) == 0 ==> (ectx != nil ==> scalls(attemptAcquireWithRetry) == 1)
 //@   ensures C13.no_acquire_on_live_record: entry != nil && LenOf(EntryVal(entry)) != 0 ==> scalls(attemptAcquireWithRetry) == 0
-//@   ghost notedID Int = 0
-//@   ghost noted Bool = false
-//@   on store kvElection.leaderID as s set notedID = s.value
-//@   on store kvElection.leaderID set noted = true
-//@   ensures C18.follower_learns_the_owner_of_the_live_record: entry != nil && LenOf(EntryVal(entry)) != 0 && ParseOK(EntryVal(entry)) && !sawLeader ==> noted && notedID == IDOf(EntryVal(entry))
 //@   ghost knownLeader Int = 0
 //@   on load kvElection.leaderID as l set knownLeader = l.value
 //@   ensures C10.reevaluates_each_event: entry != nil && LenOf(EntryVal(entry)) != 0 && ParseOK(EntryVal(entry)) && !sawLeader && knownLeader == IDOf(EntryVal(entry)) && e.cfg.AllowPriorityTakeover && e.cfg.Priority > PrioOf(EntryVal(entry)) ==> scalls(attemptAcquire) == 1
